@@ -9,8 +9,13 @@
 EXTENDS Integers, Sequences, FiniteSets, TLC
 
 NilVal == 0            \* a stored nil
-\* value tokens: 0 is nil, tokens = 2 (mod 3) stand for strings, all others for ints
-IsIntTok(v) == v # NilVal /\ v % 3 # 2
+\* value tokens: 0 is nil; below 100 tokens = 2 (mod 3) stand for strings, all others for ints; from 100 on for values
+\* that cannot be compared with == (slices, maps, structs holding a slice), pointers and the two float zeroes
+\* (103: +0.0, 108: -0.0 - distinct values that compare equal)
+IsIntTok(v) == v # NilVal /\ v < 100 /\ v % 3 # 2
+IsFloatZero(v) == v \in {103, 108}
+\* slice values: []any (0 mod 5) and typed []int (4 mod 5, other than the float zeroes' neighbours) from 100 on
+IsSliceTok(v) == v >= 100 /\ v % 5 \in {0, 4}
 
 SortedSeq(S) ==
   LET RECURSIVE F(_)
@@ -53,6 +58,11 @@ Apply(st, o) ==
     [] o.op = "merge"   -> [st |-> PutAll(st, o.m), res |-> NoRes]
     [] o.op = "mergenil"-> [st |-> st, res |-> NoRes]
     [] o.op = "clear"   -> [st |-> EmptyStore, res |-> NoRes]
-    [] o.op = "getint"  -> [st |-> st, res |-> [NoRes EXCEPT !.v = IF o.k \in DOMAIN st /\ IsIntTok(st[o.k]) THEN st[o.k] ELSE o.d]]
+    \* typed slice getter: the one element of the stored slice, or nothing
+    [] o.op = "getslice"-> [st |-> st, res |-> [NoRes EXCEPT !.ok = o.k \in DOMAIN st /\ IsSliceTok(st[o.k]),
+                                                             !.v = IF o.k \in DOMAIN st /\ IsSliceTok(st[o.k]) THEN st[o.k] ELSE 0]]
+    [] o.op = "getint"  -> [st |-> st, res |-> [NoRes EXCEPT !.v = IF o.k \in DOMAIN st /\ IsIntTok(st[o.k]) THEN st[o.k]
+                                                                  ELSE IF o.k \in DOMAIN st /\ IsFloatZero(st[o.k]) THEN 0   \* the documented float -> int conversion
+                                                                  ELSE o.d]]
 
 =============================================================================
